@@ -408,6 +408,10 @@ class SchedulerPair(object):
                 self.child._schedule_tasks()
             except BaseException as e:
                 self.child_error = e
+        # the child starts with copies of the parent's handles (as after a
+        # fork) and replaces them during its own set-up: wait for *its*
+        # publisher dict, not for the inherited one
+        inherited = self.child.__dict__.get('_publishers')
         self.thread = mt.Thread(target=loop, daemon=True, name='sched-child')
         self.thread.start()
         # wait until the child's set-up (outputs, control subscriber,
@@ -416,7 +420,9 @@ class SchedulerPair(object):
         t0 = _t.time()
         while not getattr(self.child, '_raptor_lock', None) or \
               rps.AGENT_EXECUTING_PENDING not in self.child._outputs or \
-              rpc.STATE_PUBSUB not in self.child._publishers:
+              self.child._publishers is inherited or \
+              rpc.STATE_PUBSUB not in self.child._publishers or \
+              rpc.CONTROL_PUBSUB not in self.child._subscribers:
             if self.child_error:
                 raise self.child_error
             if _t.time() - t0 > 10:
